@@ -1,0 +1,49 @@
+//go:build verif
+
+package impl
+
+import (
+	"google.golang.org/protobuf/encoding/protowire"
+)
+
+// Hand-written contracts for internal/impl (shared helpers and prototypes).
+// The per-kind leaf coder contracts are generated: see verif_contracts_gen.go.
+//
+// pointer accessors are pure address casts; the race-detector hooks are no-ops
+// in the non-race build that the baseline uses.
+//
+//@ inline-always impl.pointer.Bool impl.pointer.BoolPtr impl.pointer.Int32 impl.pointer.Int32Ptr impl.pointer.Int64 impl.pointer.Int64Ptr
+//@ inline-always impl.pointer.Uint32 impl.pointer.Uint32Ptr impl.pointer.Uint64 impl.pointer.Uint64Ptr impl.pointer.Float32 impl.pointer.Float32Ptr
+//@ inline-always impl.pointer.Float64 impl.pointer.Float64Ptr impl.pointer.String impl.pointer.StringPtr impl.pointer.Bytes impl.pointer.BytesPtr
+//@ inline-always impl.pointer.IsNil impl.pointer.Elem impl.pointer.PresenceInfo
+
+// wfField: the data-structure invariant of a coderFieldInfo that the leaf coders rely on:
+// tagsize is the size of the varint-encoded wiretag (established by makeCoderMethods).
+func wfField(f *coderFieldInfo) bool {
+	return f != nil && f.tagsize == protowire.SpecVlen(f.wiretag)
+}
+
+
+// ---------------------------------------------------------------- bytes merge (C07, C14)
+
+//@ props C07 C14
+//@ mode int
+func contract_mergeBytes(dst, src pointer, f *coderFieldInfo, opts mergeOptions) {
+	requires(dst.p != nil && src.p != nil)
+	modifiesPtr(dst.Bytes())
+	// dst receives a copy of src's bytes ...
+	ensures(len(*dst.Bytes()) == old(len(*src.Bytes())))
+	ensures(forallIn(*dst.Bytes(), 0, len(*dst.Bytes()), func(k int, e byte) bool { return e == old((*src.Bytes())[k]) }))
+	// ... that shares no memory with src (mutating src afterwards cannot change dst)
+	ensures(!sameBase(*dst.Bytes(), old(*src.Bytes())) || len(*dst.Bytes()) == 0)
+}
+
+//@ props C07 C14
+//@ mode int
+func contract_mergeBytesNoZero(dst, src pointer, f *coderFieldInfo, opts mergeOptions) {
+	requires(dst.p != nil && src.p != nil)
+	modifiesPtr(dst.Bytes())
+	ensures(imp(old(len(*src.Bytes())) == 0, sameArray(*dst.Bytes(), old(*dst.Bytes())) && len(*dst.Bytes()) == old(len(*dst.Bytes()))))
+	ensures(imp(old(len(*src.Bytes())) > 0, len(*dst.Bytes()) == old(len(*src.Bytes())) && !sameBase(*dst.Bytes(), old(*src.Bytes()))))
+	ensures(imp(old(len(*src.Bytes())) > 0, forallIn(*dst.Bytes(), 0, len(*dst.Bytes()), func(k int, e byte) bool { return e == old((*src.Bytes())[k]) })))
+}
